@@ -25,10 +25,14 @@ let sw_done s t = let th = thr s t in th.t_pc = Idle && th.t_ops = []
 let sw_dump s = Printf.sprintf "%d %d | %s" (int_of_n s.s_r.r_head) (int_of_n s.s_r.r_tail) (pr_list (contents s.s_r))
 let run_sw hdr pops cops sched =
   match words hdr with
-  | [_; size; cap] ->
+  | [_; elements; ovr; cap; cw; ps] ->
     let cap = int_of_string cap in
     let garbage i = n_of_int (0xDEAD0000 + int_of_n i) in
-    let s = ref (init (num size) garbage (List.map sw_op (words pops)) (List.map sw_op (words cops))) in
+    let created = match create_size (num cw) (num ps) (num elements) with Some sz -> int_of_n sz | None -> 0 in
+    let ovr = int_of_string ovr in
+    let size = if ovr > 0 && ovr < created then ovr else created in
+    Printf.printf "S %d\n" size;
+    let s = ref (init (n_of_int size) garbage (List.map sw_op (words pops)) (List.map sw_op (words cops))) in
     let grant ti =
       let t = if ti = 0 then P else C in
       let (s', k) = run_to_sp (nat_of_int 64) !s t in
